@@ -1565,14 +1565,15 @@ impl<'a> Runtime<'a> {
             return Value::Str(ArenaCow::Owned(result));
         }
 
-        if matches!(val, Value::Array(_)) {
-            // Arrays promoted to persistent via pool.
+        if matches!(val, Value::Array(_) | Value::Host(_)) {
+            // Arrays and host values created on the callee's frame are promoted to
+            // persistent (arrays via pool) before the frame is reset.
             let promoted = val.promote(&self.pool, self.frame);
             unsafe { self.frame.reset(frame_offset) };
             return promoted;
         }
 
-        // Numbers, bools, null, borrowed strings, persistent-owned strings
+        // Numbers, bools, null, detached/borrowed strings, persistent-owned strings
         // all survive frame reset without staging.
         unsafe { self.frame.reset(frame_offset) };
         val
